@@ -3,6 +3,7 @@
 package main
 
 import (
+	"errors"
 	"time"
 	"crawshaw.io/sqlite"
 	"crawshaw.io/sqlite/sqlitex"
@@ -214,7 +215,11 @@ func runScenario(d *driver, kind string) {
 			d.round(li)
 		}
 		if d.alive(li) && d.r.Intn(2) == 0 {
-			d.stop(li)
+			if d.r.Intn(2) == 0 {
+				d.stop(li)
+			} else {
+				d.sunset(li)
+			}
 			d.submitSome(li, 2)
 			// every kind of resubmission after the stop must fail too (also one the cache could answer)
 			for k, e := range d.recent {
@@ -309,6 +314,76 @@ func runScenario(d *driver, kind string) {
 		}
 		// finally restart on whatever state is left
 		if !d.alive(a) || (b != nil && !d.alive(b)) {
+			dead := a
+			if d.alive(a) {
+				dead = b
+			}
+			if li := d.restart(dead, false); li != nil {
+				d.round(li)
+			}
+		}
+	case "loadrace":
+		// instance B is stopped right before the k-th storage/lock operation of its LoadLog while instance A commits
+		// whole rounds; then B's LoadLog goes on with whatever it had already read
+		d.multi = true
+		a := d.boot(0)
+		d.submitSome(a, 1+d.r.Intn(3))
+		d.round(a)
+		d.round(a)
+		if !d.alive(a) {
+			return
+		}
+		b := d.newInstance(7, logName, 0, "")
+		if d.lastTs > d.w.now {
+			d.setClock(d.lastTs)
+		}
+		d.w.mu.Lock()
+		b.in.holdAt = b.in.nops + d.r.Intn(9)
+		d.w.mu.Unlock()
+		loadDone := false
+		var loadErr error
+		go func() {
+			err := d.load(b, -1)
+			d.w.mu.Lock()
+			loadDone, loadErr = true, err
+			d.w.cond.Broadcast()
+			d.w.mu.Unlock()
+		}()
+		d.w.mu.Lock()
+		for !b.in.held && !loadDone {
+			d.w.cond.Wait()
+		}
+		d.w.mu.Unlock()
+		for r := 0; r < 1+d.r.Intn(2) && d.alive(a); r++ {
+			d.submitSome(a, 1+d.r.Intn(3))
+			d.round(a)
+		}
+		if d.alive(a) {
+			d.round(a)
+		}
+		d.w.mu.Lock()
+		b.in.holdAt = -1
+		d.w.cond.Broadcast()
+		for !loadDone {
+			d.w.cond.Wait()
+		}
+		d.w.mu.Unlock()
+		d.stats["loadrace"]++
+		if loadErr == nil {
+			d.stats["loadrace:loaded"]++
+			d.waitQuiet(b)
+			d.submitSome(b, 1+d.r.Intn(3))
+			d.round(b)
+			d.round(b)
+		}
+		for _, x := range []*logInst{a, b} {
+			if x != nil && x.log != nil && d.alive(x) {
+				d.submitSome(x, 1)
+				d.round(x)
+				d.round(x)
+			}
+		}
+		if !d.alive(a) || (loadErr == nil && !d.alive(b)) {
 			dead := a
 			if d.alive(a) {
 				dead = b
@@ -1148,6 +1223,52 @@ func (d *driver) stop(li *logInst) {
 		d.w.cond.Wait()
 	}
 	d.w.logf(nil, "ev|stop|%d|cancel", li.in.id)
+	d.w.mu.Unlock()
+	d.sync()
+}
+
+// sunset: the read-only date (NotAfterLimit + ReadOnlyAfter) passes while the sequencer is running. The sequencer is
+// parked inside a round (its check for this tick is behind it): that round completes, and at the next tick
+// RunSequencer must return SunsetLogError, failing the pending pool with it.
+func (d *driver) sunset(li *logInst) {
+	d.waitQuiet(li)
+	d.w.mu.Lock()
+	// written while the sequencer goroutine is blocked on w.mu/w.cond: ordered before its next read of the field
+	li.cfg.NotAfterLimit = time.Unix(time.Now().Add(-ctlog.ReadOnlyAfter-time.Hour).Unix(), 0).UTC()
+	d.w.mu.Unlock()
+	d.stats["sunset-while-running"]++
+	after := 0
+	for n := 0; n < 50; n++ {
+		d.waitQuiet(li)
+		d.w.mu.Lock()
+		parked := li.parked
+		running := li.running
+		d.w.mu.Unlock()
+		if !running {
+			break
+		}
+		if parked {
+			if after >= 2 {
+				d.w.mu.Lock()
+				d.w.mon.fail("C17 the sequencer of instance %d is still running and has begun round %d after the read-only date passed (it must stop at its first tick after the date)", li.in.id, after+1)
+				d.w.mu.Unlock()
+				d.stop(li)
+				return
+			}
+			d.round(li)
+			after++
+		}
+	}
+	d.w.mu.Lock()
+	for li.running {
+		d.w.cond.Wait()
+	}
+	d.w.mon.checks["C17.sunset-stops"]++
+	var se ctlog.SunsetLogError
+	if !errors.As(li.seqErr, &se) {
+		d.w.mon.fail("C17 the sequencer of instance %d returned %v after the read-only date, not SunsetLogError", li.in.id, li.seqErr)
+	}
+	d.w.logf(nil, "ev|stop|%d|sunset", li.in.id)
 	d.w.mu.Unlock()
 	d.sync()
 }
